@@ -78,6 +78,7 @@ type LNode struct {
 	Mem     *kit.Membership
 	Sh      *ref.Shadow
 	Commits []CommitRec
+	commitRefused bool // the consumer's commit callback returned an error at least once: the node stays in a height it decided
 	Proofs  [][]byte
 	Blocks  []interfaces.Block
 	Rounds  []string
@@ -101,6 +102,7 @@ func NewLNode(w *World, idx int) *LNode {
 		OverrideElectionTrigger: n.Trig, Storage: n.Store}
 	n.V = lh.NewVerifNode(cfg, func(ctx context.Context, b interfaces.Block, p []byte) error {
 		if n.CommitErr || w.CommitFails || (w.MaxCommits > 0 && len(n.Blocks) >= w.MaxCommits) {
+			n.commitRefused = true
 			return fmt.Errorf("consumer failed to commit")
 		}
 		n.Blocks = append(n.Blocks, b)
@@ -448,6 +450,24 @@ func (n *LNode) Step(e Event, raw *interfaces.ConsensusRawMessage, info ref.Info
 	sh.View = view
 	if view > sh.MaxOut {
 		sh.MaxOut = view
+	}
+	// ---- C11 / C05 (last clause): COMMITs are counted whenever they arrive. A member that accepted the proposal (v, X)
+	// of its height (sent PREPARE for it, or proposed it) and has been delivered genuine COMMITs (valid share, committee
+	// members; its own included) of quorum weight for exactly (v, X) has committed - in whatever order proposal and
+	// COMMITs arrived. (Had it committed, the shadow would have moved on to the next height.)
+	if n.Dead == "" && !n.commitRefused && height == sh.Height {
+		for v, hash := range sh.Accepted {
+			ids := map[string]bool{}
+			for id := range sh.Comms[fmt.Sprintf("%d/%s", v, hash)] {
+				ids[id] = true
+			}
+			if sh.OwnCommit[v] == hash {
+				ids[me] = true
+			}
+			if r.IsQuorum(ids) {
+				bad("C11", "commit-quorum-not-acted-upon", "holds the proposal #%s it accepted in view %d and genuine COMMITs for exactly that pair from %v (quorum weight) but has not committed (trigger=%s)", short(hash), v, keys(ids), trigger)
+			}
+		}
 	}
 	return
 }
